@@ -873,7 +873,7 @@ def container_docs():
     for tc in ("par", "seq"):
       for pc in combos:
         for c1 in combos:
-          for c2 in ("", "b", "d", "be"):
+          for c2 in ("", "d", "be"):
             if outer == "seq" and ("d" not in pc and "e" not in pc):
               continue      # an indefinite first child of a seq: covered (rarely) by the random families, it raises (known suspect)
             if tc == "seq" and ("d" not in c1 and "e" not in c1):
@@ -957,11 +957,11 @@ def handmade_docs():
 
 TIME_BAD = [("garbage", "abc"), ("empty", ""), ("no-metric", "1"), ("unknown-metric", "1x"), ("negative", "-1s"), ("no-fraction-digits", "1.s"),
             ("no-integer-digits", ".5s"), ("inner-space", "1 s"), ("short-clock", "00:00:1"), ("comma", "1,5s"), ("two-fractions", "00:00:01.5.5"),
-            ("frames>=rate", "00:00:00:75"), ("trailing-garbage-after-f", "10fps"), ("trailing-digits-after-f", "10f5"), ("subframes", "00:00:01:10.5"),
+            ("frames>=rate", "00:00:00:75"), ("frames>=rate", "=rate"), ("trailing-garbage-after-f", "10fps"), ("trailing-garbage-after-f", "10f5"), ("subframes", "00:00:01:10.5"),
             ("trailing-garbage-after-s", "1sec"), ("one-digit-hours", "0:00:01")]
-ENUM_BAD = [("unknown-token", "foo"), ("wrong-case", None), ("empty", "")]
-COLOR_BAD = [("short-hex", "#ff00"), ("non-hex", "#gg0000"), ("unknown-name", "reddish"), ("hex-trailing-garbage", "#ff0000zz"),
-             ("rgb-two-components", "rgb(1,2)"), ("rgba-three-components", "rgba(1,2,3)"), ("empty", ""), ("rgb-trailing-garbage", "rgb(1,2,3)x"),
+ENUM_BAD = [("unknown-token", "foo"), ("unknown-token", None), ("unknown-token", "")]      # None: the valid token with its first letter in upper case
+COLOR_BAD = [("short-hex", "#ff00"), ("non-hex", "#gg0000"), ("unknown-name", "reddish"), ("trailing-garbage", "#ff0000zz"),
+             ("rgb-two-components", "rgb(1,2)"), ("rgba-three-components", "rgba(1,2,3)"), ("empty", ""), ("trailing-garbage", "rgb(1,2,3)x"),
              ("rgb-component>255", "rgb(300,0,0)", "rgb(255,0,0)")]
 LENGTH_BAD = [("no-unit", "10"), ("no-number", "px"), ("inner-space", "10 px"), ("exponent", "1e2px"), ("unknown-unit", "10pt"), ("garbage", "abc"),
               ("empty", "")]
@@ -970,7 +970,7 @@ ENUMS = {"fontWeight", "fontStyle", "textAlign", "display", "visibility", "wrapO
 COLOR_ATTRS = {"color", "backgroundColor"}
 LENGTH_ATTRS = {"fontSize", "lineHeight", "linePadding", "shear"}
 OTHER_BAD = {
-  "textDecoration": [("unknown-token", "blink"), ("empty", ""), ("wrong-case", "Underline")],
+  "textDecoration": [("unknown-token", "blink"), ("unknown-token", ""), ("unknown-token", "Underline"), ("unknown-token", "underline blink")],
   "textShadow": [("one-component", "1px"), ("five-components", "1px 1px 1px 1px 1px"), ("garbage", "foo"), ("two-bad-lengths", "a b")],
   "textOutline": [("three-components", "red 1px 2px"), ("garbage", "foo"), ("bad-colour", "reddish 1px")],
   "textEmphasis": [("garbage", "foo bar")],
@@ -984,16 +984,15 @@ OTHER_BAD = {
   "fillLineGap": [],
   "timeContainer": [("unknown-token", "excl"), ("wrong-case", "PAR"), ("empty", "")],
   "space": [("unknown-token", "keep"), ("wrong-case", "Preserve"), ("empty", "")],
-  "frameRate": [("garbage", "abc"), ("zero", "0"), ("negative", "-25"), ("trailing-garbage", "25fps"), ("empty", ""), ("fraction", "29.97")],
+  "frameRate": [("garbage", "abc"), ("zero", "0"), ("negative", "-25"), ("trailing-garbage", "25fps"), ("empty", ""), ("trailing-garbage", "29.97")],
   "frameRateMultiplier": [("one-number", "1000"), ("slash", "1000/1001"), ("zero-denominator", "1000 0"), ("zero-numerator", "0 1001"),
                           ("garbage", "a b"), ("trailing-garbage", "1000 1001x")],
-  "tickRate": [("zero", "0"), ("garbage", "abc"), ("exponent", "1e3"), ("fraction", "10.5"), ("negative", "-10")],
+  "tickRate": [("zero", "0"), ("garbage", "abc"), ("trailing-garbage", "1e3"), ("trailing-garbage", "10.5"), ("negative", "-10")],
   "cellResolution": [("zeros", "0 0"), ("one-number", "32"), ("garbage", "a b"), ("trailing-garbage", "32 15 1")],
   "tt-extent": [("garbage", "foo"), ("one-component", "100px"), ("percent", "100% 100%"), ("no-unit", "1920 1080")],
   "style": [("unknown-id", "nosuch")],
 }
-UNKNOWN_ATTRS = [("tts-namespace", q(TTS, "foo"), "bar"), ("no-namespace", "bogus", "1"), ("ttp-namespace", q(TTP, "foo"), "bar"),
-                 ("misplaced-fontWeigth-typo", q(TTS, "fontWeigth"), "bold")]
+UNKNOWN_ATTRS = [("any", q(TTS, "foo"), "bar"), ("any", "bogus", "1"), ("any", q(TTP, "foo"), "bar"), ("any", q(TTS, "fontWeigth"), "bold")]
 
 
 def corruptions_for(elem, attr, frame_rate):
@@ -1007,13 +1006,13 @@ def corruptions_for(elem, attr, frame_rate):
     for c in TIME_BAD:
       val = c[1]
       if c[0] == "frames>=rate":
-        val = f"00:00:00:{frame_rate + 5}"
+        val = f"00:00:00:{frame_rate + (0 if val == '=rate' else 5):02d}"
       out.append(("time", c[0], val, None))
   elif ns == TTS and name == "extent" and tag == "tt":
     out += [("tt-extent", c[0], c[1], None) for c in OTHER_BAD["tt-extent"]]
   elif ns in (TTS, EBUTTS, ITTS) and name in ENUMS:
     for cid, val in ENUM_BAD:
-      if cid == "wrong-case":
+      if val is None:
         val = v[0].upper() + v[1:]
       out.append(("enum", cid, val, None))
   elif ns == TTS and name in COLOR_ATTRS:
@@ -1036,7 +1035,8 @@ def _attr_sites(root):
 def corrupt_cases(xml_text, r, limit):
   """-> [(class, cid, corrupted xml, removed xml, alternative xml or None, description)]"""
   root = et.fromstring(xml_text)
-  fr = S.read_params(root).frame_rate
+  pr = S.read_params(root)
+  fr = int(max(Fraction(pr.frame_rate), pr.effective_frame_rate))     # at or above both the nominal and the effective rate
   elems = list(root.iter())
   cases = []
   for i, a in _attr_sites(root):
@@ -1073,11 +1073,10 @@ def full_snapshots(xml_text):
   doc, logs = read(xml_text)
   if doc is None:
     return None, logs
+  # ttconv against ttconv: both documents are piecewise constant between their own change times, so the boundaries suffice
   ts = sorted(x for x in ISDSPEC.change_times(doc) if x is not None and x >= 0)
   times = set(ts)
-  for x, y in zip(ts, ts[1:]):
-    times.add((x + y) / 2)
-  times.add((ts[-1] if ts else Fraction(0)) + 1)
+  times.add(Fraction(0))
   sig = [("doc", str(doc.get_lang()), str(doc.get_cell_resolution()), str(doc.get_px_resolution()), str(doc.get_active_area()),
           str(doc.get_display_aspect_ratio()))]
   for t in sorted(times):
@@ -1092,11 +1091,31 @@ def full_snapshots(xml_text):
   return sig, logs
 
 
+def _first(x):
+  return x[0]
+
+
+_REF_CACHE = {}
+
+
+def reference(removed_xml):
+  """full_snapshots of the document without the attribute (cached per chunk: many corruptions share it)"""
+  k = hashlib.sha1(removed_xml.encode()).digest()
+  if k not in _REF_CACHE:
+    if len(_REF_CACHE) > 64:
+      _REF_CACHE.clear()
+    try:
+      _REF_CACHE[k] = full_snapshots(removed_xml)
+    except Exception as e:  # pylint: disable=broad-except
+      _REF_CACHE[k] = e
+  return _REF_CACHE[k]
+
+
 def _isd_sig(isd):
   def el(e):
     if isinstance(e, m.Text):
       return ("Text", e.get_text())
-    styles = tuple(sorted((p.__name__, repr(e.get_style(p))) for p in e.iter_styles()))
+    styles = tuple(sorted(((p.__name__, e.get_style(p)) for p in e.iter_styles()), key=_first))
     lang = None if isinstance(e, m.Br) else e.get_lang()
     return (type(e).__name__, e.get_id(), lang, styles, tuple(el(c) for c in e))
   return tuple(el(r) for r in isd.iter_regions())
@@ -1107,10 +1126,10 @@ def check_corruption(rec, case, origin):
   contract = "corrupt-one-attribute"
   base = f"corrupt:{cls}:{cid}"
   rargs = {"xml": bad_xml, "removed": removed_xml, "alt": alt_xml}
-  try:
-    ref, ref_logs = full_snapshots(removed_xml)
-  except Exception:  # pylint: disable=broad-except
+  refr = reference(removed_xml)
+  if isinstance(refr, Exception):
     return          # the reference document itself fails (reported by snapshot==TTML): nothing to compare with
+  ref, ref_logs = refr
   rec.evaluated(contract, hashlib.sha1(bad_xml.encode()).hexdigest()[:12], {"corruption": desc, "origin": origin})
   try:
     got, logs = full_snapshots(bad_xml)
@@ -1124,12 +1143,13 @@ def check_corruption(rec, case, origin):
       same = got == full_snapshots(alt_xml)[0]
     except Exception:  # pylint: disable=broad-except
       pass
+  logged = len(logs) > len(ref_logs)
   if not same:
-    rec.fail(f"{base}:{aname}:meaning-changed", contract, f"{desc}: snapshots differ from those of the document without the attribute",
+    rec.fail(f"{base}:accepted", contract, f"{desc}: the value is used -- snapshots differ from those of the document without the attribute"
+             + ("" if logged else "; nothing logged"),
              {"xml": bad_xml}, _first_diff(ref, got), "same snapshots as without the attribute", "replayers.c04:corrupt", rargs)
-  if len(logs) <= len(ref_logs):
-    key = f"{base}:no-log" if cls == "unknown-attribute" else f"{base}:{aname}:no-log"
-    rec.fail(key, contract, f"{desc}: no log record reports the ignored attribute", {"xml": bad_xml}, logs,
+  elif not logged:
+    rec.fail(f"{base}:not-logged", contract, f"{desc}: no log record reports the attribute", {"xml": bad_xml}, logs,
              "one more ttconv.imsc.* record (WARNING or above) than without the attribute", "replayers.c04:corrupt", rargs)
 
 
@@ -1241,15 +1261,6 @@ def check_doc(rec, xml_text, origin, state):
   explained = explain(xml_text) if res.kind.startswith("snapshot:") else None
   if explained:
     key = "snapshot:" + explained
-    if state.get("min_s", 0.0) < state.get("min_budget_s", 20.0) and key not in rec.failures:
-      t0 = time.time()
-      small = minimise(xml_text, res.kind, 200)
-      state["min_s"] = state.get("min_s", 0.0) + time.time() - t0
-      res2 = evaluate(small)
-      if res2.status == "fail":
-        res = res2
-      else:
-        small = xml_text
   elif res.kind.startswith("snapshot:"):
     if state.get("min_s", 0.0) < state.get("min_budget_s", 20.0):
       t0 = time.time()
@@ -1263,8 +1274,12 @@ def check_doc(rec, xml_text, origin, state):
       key = f"{res.kind}[{features(small)}]"
     else:
       key = f"{res.kind}[not-minimised:{origin.split('/')[0]}]"
+  prev = rec.failures.get(key)
   rec.fail(key, contract, f"{origin}: {res.summary}", {"xml": small}, res.observed, res.required, "replayers.c04:snapshot",
            {"xml": small, "t": None if res.t is None else str(res.t)})
+  if prev is not None and len(small) < len(prev["input"]["xml"]):
+    prev.update(summary=f"{origin}: {res.summary}", input={"xml": small}, observed=res.observed, required=res.required,
+                replay_args={"xml": small, "t": None if res.t is None else str(res.t)})
   return res
 
 
@@ -1279,6 +1294,16 @@ def explain(xml_text):
 
 
 def work(item):
+  kind, lo, hi, seed, tier = item
+  t_start = time.time()
+  try:
+    return _work(item)
+  finally:
+    if os.environ.get("C04_VERBOSE"):
+      print(f"[c04] {kind} {lo}-{hi}: {time.time() - t_start:.1f}s", file=sys.stderr)
+
+
+def _work(item):
   kind, lo, hi, seed, tier = item
   install_capture()
   rec = Recorder("C04", "", {})
@@ -1295,17 +1320,24 @@ def work(item):
            "seq-indef": CFG_SEQ_INDEF}[kind]
     docs = [(f"{kind}/{i}", fam_random(seed, f"{kind}/{i}", cfg)) for i in range(lo, hi)]
   r = rng(seed, f"c04/corrupt/{kind}/{lo}")
-  per_doc = 6 if tier == "quick" else 20
+  per_doc = 4 if tier == "quick" else 20
+  cpu = {"eval": 0.0, "corrupt": 0.0}
   for origin, xml_text in docs:
+    c0 = time.process_time()
     res = check_doc(rec, xml_text, origin, state)
+    cpu["eval"] += time.process_time() - c0
     if kind == "fixed":
       continue
     if res.status == "fail" and res.kind.startswith("to_model-raises"):
       continue
-    limit = None if kind == "handmade" else per_doc
+    limit = 3 * per_doc if kind == "handmade" else per_doc
+    c0 = time.process_time()
     for case in corrupt_cases(xml_text, r, limit):
       check_corruption(rec, case, origin)
+    cpu["corrupt"] += time.process_time() - c0
   rec.oos = state.get("oos", 0)
+  if os.environ.get("C04_VERBOSE"):
+    print(f"[c04] {kind} {lo}-{hi}: cpu eval {cpu['eval']:.1f} (minimise {state.get('min_s', 0):.1f} wall) corrupt {cpu['corrupt']:.1f}", file=sys.stderr)
   return rec
 
 
@@ -1317,8 +1349,8 @@ def plan(tier, seed):
   for lo in range(0, nfixed, step):
     items.append(("fixed", lo, min(nfixed, lo + step), seed, tier))
   items.append(("handmade", 0, 0, seed, tier))
-  sizes = {"random": 320, "timing": 400, "style": 320, "space": 240, "region": 200, "ruby": 120, "seq-indef": 40}
-  mult = 1 if quick else 12
+  sizes = {"random": 240, "timing": 280, "style": 240, "space": 160, "region": 160, "ruby": 80, "seq-indef": 40}
+  mult = 1 if quick else 16
   for kind, n in sizes.items():
     n *= mult
     chunk = 40 if quick else 120
@@ -1338,6 +1370,11 @@ def main():
                  {"families": sorted(set(i[0] for i in items)), "documents": sum(max(0, i[2] - i[1]) for i in items), "tier": args.tier})
   oos = 0
   for part in parallel(work, items):
+    for k, v in part.failures.items():        # keep the shortest witness of a key
+      old = rec.failures.get(k)
+      if old is not None and v.get("input") and old.get("input") and len(v["input"]["xml"]) < len(old["input"]["xml"]):
+        v["count"] += old["count"]
+        del rec.failures[k]
     rec.merge(part)
     oos += getattr(part, "oos", 0)
   rec.scope["documents_outside_oracle_scope"] = oos
